@@ -1,4 +1,5 @@
 #include "common.h"
+#include "simthreads.h"
 
 #include <hgraph/runtime/child_graph_inspection.h>
 
@@ -15,6 +16,7 @@ namespace hv
     void Line::emit()
     {
         if (!g_log_enabled) return;
+        sim::NoPreempt guard;       // the buffer is shared by all simulated threads
         if (g_ctx->exec >= 0) { s += ",\"x\":"; s += std::to_string(g_ctx->exec); }
         s += "}\n";
         g_buf += s;
@@ -22,6 +24,7 @@ namespace hv
     }
     void log_flush()
     {
+        sim::NoPreempt guard;
         size_t o = 0;
         while (o < g_buf.size())
         {
